@@ -51,3 +51,7 @@ where
         Self { stub, should_retry }
     }
 }
+
+#[cfg(kani)]
+#[path = "/verif/kani/retry.rs"]
+mod verif_kani;
